@@ -183,6 +183,16 @@ def run(report, tier, seed):
                 got = RT._datedif(datetime.datetime({y1}, m1, d1), datetime.datetime({y2}, m2, d2), '{unit}')
                 return got == {exp}
             ''', encodes=('ExcelInPython._datedif',), timeout=T * 2)
+    # DATEDIF at the ends of months (start day 28..31, end day = last or last-but-one day of its month): the day-borrow rule of M / Y / YM
+    for (y1, y2) in [(2023, 2023), (2020, 2021), (2023, 2024)]:
+        pre = (f'1 <= m1 <= 12 and 1 <= m2 <= 12 and 28 <= d1 <= dim({y1}, m1) and dim({y2}, m2) - 1 <= d2 <= dim({y2}, m2) '
+               f'and ymd_ord({y1}, m1, d1) <= ymd_ord({y2}, m2, d2)')
+        for unit, exp in (('M', f'months_between({y1}, m1, d1, {y2}, m2, d2)'), ('Y', f'months_between({y1}, m1, d1, {y2}, m2, d2) // 12'),
+                          ('YM', f'months_between({y1}, m1, d1, {y2}, m2, d2) % 12')):
+            s.add(f'datedif_month_end_{unit}_{y1}_{y2}', 'm1: int, d1: int, m2: int, d2: int', pre, f'''
+                got = RT._datedif(datetime.datetime({y1}, m1, d1), datetime.datetime({y2}, m2, d2), '{unit}')
+                return got == {exp}
+            ''', encodes=('ExcelInPython._datedif',), timeout=T * 2)
     # NETWORKDAYS: concrete month, start day / length symbolic, up to two holidays at symbolic offsets
     for (y, m) in ([(2024, 1)] if tier == 'quick' else [(2024, 1), (2023, 12), (2024, 2)]):
         L = 7 if tier == 'quick' else 14
